@@ -43,3 +43,15 @@ PROPS["C17"] = dict(
     ],
     fuzz=[dict(target="FuzzC17", seconds=150)],
 )
+
+PROPS["C07"] = dict(
+    pkg="c07", level="exploration",
+    technique="rapid generation over every field constructor with an expected-tree oracle decoded by encoding/json and a strict RFC 8259 scanner; native fuzzing of the same property",
+    level_text="Exploration: generated events (all constructors, hostile byte-string keys/values, boundary numbers, nesting) are formatted directly and end-to-end; each line must be one strict RFC 8259 object and decode, member by member in order, to the tree the generator expected (exact integers, bit-exact floats, sanitised strings, nulls, structure).",
+    level_note="Trusted: the generator's own expectation builder (vk/fieldgen.go), encoding/json's token decoder and the harness's RFC 8259/3629 scanner. Sampled, not exhaustive.",
+    rule="events generated from every public field constructor with hostile keys/strings and boundary numbers, formatted by JSONLayout directly and through log.Record + Refresh-built console logger",
+    steps=[
+        dict(test="^Test(Regress_C07|C07_Direct|C07_EndToEnd)$", quick=dict(checks=12000, timeout=900), thorough=dict(checks=40000, shards=12, timeout=3000)),
+    ],
+    fuzz=[dict(target="FuzzC07", seconds=120)],
+)
